@@ -16,7 +16,9 @@ NAMES = ["X-Tok", "x-tok", "X-TOK", "Set-Cookie", "set-cookie", "SET-COOKIE",
          "sEt-cOOkie", "Y-Other"]
 # ASCII, Latin-1 range, BMP, astral
 VALUES = ["a=1", "café ÿ", "žluť € ￿",
-          "\U0001f600 \U0010ffff", "", "b", "\u0080߿ࠀ", "q\"uo\\te"]
+          "\U0001f600 \U0010ffff", "", "b", "\u0080߿ࠀ", "q\"uo\\te",
+          # Latin-1-range text whose code points read as well-formed UTF-8
+          "\u00c3\u00a9", "caf\u00c2\u00a0au", "\u00e2\u0082\u00ac\u00a3"]
 HOSTILE = [None, 5, b"X-Tok", "\ud800", "x\udfffy", -1, b""]
 NEGOS = [[("gzip", 1.0), ("*", 0)], (("text/html;level=1",), ("x", 0.5)),
          [], [("café",)], [("a", "\ud800")], ((),)]
@@ -585,6 +587,12 @@ def random_text(rng, n, surrogates=0.0):
         roll = rng.random()
         if roll < surrogates:
             out.append(rng.randint(0xD800, 0xDFFF))
+        elif roll < surrogates + 0.08:
+            # looks converted already: the UTF-8 bytes of a character, as
+            # Latin-1-range characters
+            out.extend(chr(rng.choice([0xE9, 0xA0, 0x20AC, 0x1F600, 0x7FF,
+                                       rng.randint(0x80, 0xFFFF) & ~0x5800]))
+                       .encode("utf-8"))
         elif roll < 0.3:
             out.append(rng.randint(0, 0x7F))
         elif roll < 0.5:
